@@ -406,12 +406,12 @@ where
         use std::collections::hash_map::Entry;
 
         let r = match self.refs.get(old.id)? {
-            XRef::Free { .. } => panic!(),
+            XRef::Free { .. } => err!(PdfError::FreeObject { obj_nr: old.id }),
             XRef::Raw { gen_nr, .. } => PlainRef { id: old.id, gen: gen_nr },
             // the new version is written as an ordinary object with the same number
             XRef::Stream { .. } => PlainRef { id: old.id, gen: 0 },
             XRef::Promised => PlainRef { id: old.id, gen: 0 },
-            XRef::Invalid => panic!()
+            XRef::Invalid => err!(PdfError::NullRef { obj_nr: old.id })
         };
         let primitive = obj.to_primitive(self)?;
         // typed loads of the old version may be cached
